@@ -117,12 +117,6 @@ KERNELS = [
     K("c10::k_time_round", pre=lambda a: And(ref_valid_time(a[0], a[1], a[2], a[3]), in_range(a[4], 0, NP - 1), in_range(a[5], 0, 8)),
       claims=[("Time::round == exact rounding of the nanosecond of day, wrapping at 24h", time_claim)],
       bounds={0: (0, 23), 1: (0, 59), 2: (0, 59), 3: (0, 999999999), 4: (0, NP - 1), 5: (0, 8)}, split=(4, NP)),
-    K("c10::k_dt_round", pre=lambda a: And(ref_valid_date(a[0], a[1], a[2]), ref_valid_time(a[3], a[4], a[5], a[6]), in_range(a[7], 0, NP - 1), in_range(a[8], 0, 8)),
-      claims=[("DateTime::round == exact rounding of the time of day with carry into the date (every year incl. 0 and negatives); Err iff out of range", dt_claim)],
-      bounds={**B_DTR, 7: (0, NP - 1), 8: (0, 8)}, split=(7, NP)),
-    K("c10::k_dt_round_day", pre=lambda a: And(ref_valid_date(a[0], a[1], a[2]), ref_valid_time(a[3], a[4], a[5], a[6]), in_range(a[7], 0, 8)),
-      claims=[("DateTime::round(Day) == this or the next civil midnight by the mode's rule", dt_day_claim)],
-      bounds={**B_DTR, 7: (0, 8)}),
     K("c10::k_offset_round", pre=lambda a: And(in_range(a[0], -OFF_MAX, OFF_MAX), in_range(a[1], 0, NP - 1), in_range(a[2], 0, 8)),
       claims=[("Offset::round == exact rounding of the offset seconds; Err iff out of range or sub-second unit", off_claim)],
       bounds={0: (-OFF_MAX, OFF_MAX), 1: (0, NP - 1), 2: (0, 8)}, split=(1, NP)),
